@@ -707,6 +707,10 @@ func ruleModuleInit(r *Run) {
 	}
 	getState := r.fn(pkgModels, "Session", "ModuleState")
 	setState := r.fn(pkgModels, "Session", "SetModuleState")
+	loadOrStore := r.P.LookupFunc(pkgModels, "Session", "LoadOrStoreModuleState") // get-or-create in one critical section (contract: J4 below)
+	if loadOrStore != nil {
+		r.loadOrStoreContract(loadOrStore)
+	}
 	names := map[string]string{}
 	for _, mi := range m.Modules {
 		prev, dup := names[mi.Name]
@@ -726,6 +730,10 @@ func ruleModuleInit(r *Run) {
 			stateWrites := 0
 			lookup := ""
 			iSet := idxOfCall(path, setState, 0)
+			iLos := -1
+			if loadOrStore != nil {
+				iLos = idxOfCall(path, loadOrStore, 0)
+			}
 			for i, ev := range path.Events {
 				if ev.Kind == EvGuard {
 					g := r.Classify(path, i)
@@ -753,6 +761,10 @@ func ruleModuleInit(r *Run) {
 				"Init binds the module to the session and participant it is given (session=%q participant=%q)", assigned["recv.currentSession"], assigned["recv.currentParticipant"])
 			st := assigned["recv.state"]
 			okState := strings.Contains(st, "call:Session.ModuleState(")
+			if !okState && iLos >= 0 {
+				// get-or-create: the state bound is what the session says is registered
+				okState = strings.Contains(st, "call:Session.LoadOrStoreModuleState(")
+			}
 			if !okState && iSet >= 0 && len(path.Events[iSet].Call.Args) == 2 {
 				// creating path: the state bound is the very object just registered in the session
 				reg := r.P.Canon(fn, path.Events[iSet].Call.Args[1])
@@ -770,15 +782,78 @@ func ruleModuleInit(r *Run) {
 				r.CheckT("J4", fn.Name+":reuse", iSet < 0, fn.Body.Pos(), path, "an existing module state is kept (not replaced) when another participant joins")
 			case "miss":
 				created++
-				okSet := iSet >= 0 && r.P.Canon(fn, path.Events[max0(iSet)].Recv) == ps && r.P.Canon(fn, path.Events[max0(iSet)].Call.Args[0]) == "recv.call:Module.Name()"
+				iReg := iSet
+				if iReg < 0 {
+					iReg = iLos
+				}
+				okSet := iReg >= 0 && r.P.Canon(fn, path.Events[max0(iReg)].Recv) == ps && r.P.Canon(fn, path.Events[max0(iReg)].Call.Args[0]) == "recv.call:Module.Name()"
 				r.CheckT("J3", fn.Name+":create", okSet, fn.Body.Pos(), path, "a missing module state is created and registered in the session under the module's name")
 			default:
-				r.CheckT("J3", fn.Name+":get-or-create", false, fn.Body.Pos(), path, "Init is not decided by the lookup of the module state")
+				// no separate lookup: a single get-or-create call decides both cases inside the session
+				okLos := iLos >= 0 && iSet < 0 && r.P.Canon(fn, path.Events[max0(iLos)].Recv) == ps && r.P.Canon(fn, path.Events[max0(iLos)].Call.Args[0]) == "recv.call:Module.Name()"
+				if okLos {
+					created++
+					reused++
+				}
+				r.CheckT("J3", fn.Name+":get-or-create", okLos, fn.Body.Pos(), path, "Init is not decided by the lookup of the module state")
 			}
 		}
 		r.Check("J3", fn.Name+":cases", created >= 1 && reused >= 1, fn.Body.Pos(), "Init has a creating and a reusing path")
 	}
 	r.Floor("J3", "modules", len(m.Modules), 3)
+}
+
+// loadOrStoreContract (J4): Session.LoadOrStoreModuleState keeps an existing state and registers the
+// given one only when there is none, all inside one exclusive critical section.
+func (r *Run) loadOrStoreContract(f *types.Func) {
+	fn := r.P.Funcs[f]
+	if fn == nil {
+		r.Undecide("J4", "Session.LoadOrStoreModuleState has no body")
+		return
+	}
+	paths := r.Paths(fn)
+	r.Analysed(fn, len(paths))
+	slot := "recv.moduleStates[param:#0]"
+	hits, misses := 0, 0
+	for pi := range paths {
+		path := &paths[pi]
+		r.at(path)
+		held := r.locksAlong(path, lockset{})
+		g := r.guardMap(path)
+		ops := r.mapOps(fn, path)
+		ret := r.retCanon(fn, path)
+		var writes []mapOp
+		for _, op := range ops {
+			if op.Kind != "read" {
+				writes = append(writes, op)
+			}
+		}
+		locked, touched := true, 0
+		for i, ev := range path.Events {
+			if ev.Kind == EvAssign || ev.Kind == EvGuard || ev.Kind == EvDelete {
+				touched++
+				if held[i]["Session.moduleMutex"] != "W" {
+					locked = false
+				}
+			}
+		}
+		r.CheckT("J4", fn.Name+":one-critical-section", locked && touched > 0, fn.Body.Pos(), path,
+			"the lookup and the registration of a module state happen under the session's module lock, held exclusively")
+		switch g["maplookup:"+slot] {
+		case "hit":
+			hits++
+			r.CheckT("J4", fn.Name+":keeps-existing", len(writes) == 0 && len(ret) == 1 && strings.HasPrefix(ret[0], slot), fn.Body.Pos(), path,
+				"an existing module state is returned and not replaced (writes=%d returns %v)", len(writes), ret)
+		case "miss":
+			misses++
+			ok := len(writes) == 1 && writes[0].Kind == "write" && writes[0].Map == "recv.moduleStates" && writes[0].Key == "param:#0" && writes[0].Val == "param:#1" &&
+				len(ret) == 1 && ret[0] == "param:#1"
+			r.CheckT("J4", fn.Name+":registers-given", ok, fn.Body.Pos(), path, "a missing module state is registered under the given name and returned (returns %v)", ret)
+		default:
+			r.CheckT("J4", fn.Name+":decided-by-lookup", false, fn.Body.Pos(), path, "LoadOrStoreModuleState is not decided by a lookup of the state under the given name (%s)", r.pathSig(path))
+		}
+	}
+	r.Check("J4", fn.Name+":cases", hits >= 1 && misses >= 1, fn.Body.Pos(), "LoadOrStoreModuleState has a keeping and a registering path")
 }
 
 // joinSessionCanon: canonical name of the join handler's local that holds the session being joined
